@@ -1,9 +1,120 @@
-(* C05 — the LFU-over-Badger cache behaves like a durable map.  Headline theorems only. *)
-From Pyro Require Import Model.Lfu Model.Cache.
+(* C05 — the LFU-over-Badger cache behaves like a durable map.  Headline theorems only.
+   Model: Model/Lfu.v (lfu-go v1.0.3) and Model/Cache.v (cache.go); proofs: Proofs/CacheProofs.v.
+   K, V, D: keys, objects, serialized objects; dflt = New, enc = Bytes, dec = FromBytes.
+   `run` executes a history on the cache model, `spec_run` on a plain map; `rets` are the values the reads returned.
+   Oracles (map iteration order in evict, accepted sends in write-back, completion points of saves) are
+   arguments of the operations, so "for all ops" quantifies over them too.
 
-(* placeholder until Proofs/CacheProofs.v lands: Delete removes the key from memory and disk *)
-Theorem C05_delete_removes : forall (K V D : Type) (keq : forall a b : K, {a = b} + {a <> b}) dflt enc dec
-    (c : cache (K:=K) (V:=V) (D:=D)) k,
-  c_disk (fst (step keq dflt enc dec c (ODelete k))) k = None.
-Proof. intros. cbn. unfold d_set. destruct (keq k k); congruence. Qed.
+   The full statement of the property ("for all histories, regardless of evictions, write-backs and overlaps") is
+   false of the faithful model: C05_writeback_refuted (D10) and C05_inflight_refuted (D11) below.  What is proved
+   carries exactly the excluding hypotheses:
+     no_writeback ops   — no WriteBack in the history (C05_refines), or, with write-back, every entry it marks is
+                          really handed to the write-back goroutine or touched again before the next eviction
+                          (C05_writeback_partial; hypothesis `admissible`);
+     admissible0        — no client operation on a key while a save of that key is in flight, and a mutation
+                          through a pointer happens while the cache still holds the object. *)
+From Coq Require Import List NArith.
+From Pyro Require Import Model.Lfu Model.Cache Proofs.CacheProofs.
+Import ListNotations.
+
+Theorem C05_refines :
+  forall (K V D : Type) (keq : forall a b : K, {a = b} + {a <> b})
+         (dflt : K -> V) (enc : K -> V -> D) (dec : K -> D -> V),
+  (forall k v, dec k (enc k v) = v) ->
+  forall ops,
+  no_writeback ops -> admissible0 keq dflt enc dec c_empty ops ->
+  rets (fst (run keq dflt enc dec c_empty ops)) = rets (fst (spec_run keq dflt s_empty ops)).
+Proof. exact (@c05_refines). Qed.
+Print Assumptions C05_refines.
+
+(* the discipline of a sequential client (and of the harness's synchronous stream): every eviction is followed by
+   the completion of its saves, every mutation by a Get — then no side condition on states is left *)
+Theorem C05_refines_sync :
+  forall (K V D : Type) (keq : forall a b : K, {a = b} + {a <> b})
+         (dflt : K -> V) (enc : K -> V -> D) (dec : K -> D -> V),
+  (forall k v, dec k (enc k v) = v) ->
+  forall cops,
+  forallb (is_sync (K:=K) (V:=V)) cops = true ->
+  rets (fst (run keq dflt enc dec c_empty (lower cops))) = rets (fst (spec_run keq dflt s_empty (lower cops))).
+Proof. exact (@c05_refines_sync). Qed.
+Print Assumptions C05_refines_sync.
+
+Theorem C05_flush_durable :
+  forall (K V D : Type) (keq : forall a b : K, {a = b} + {a <> b})
+         (dflt : K -> V) (enc : K -> V -> D) (dec : K -> D -> V),
+  (forall k v, dec k (enc k v) = v) ->
+  forall ops,
+  admissible keq dflt enc dec c_empty (ops ++ [OFlushReopen]) ->
+  let c' := snd (run keq dflt enc dec c_empty (ops ++ [OFlushReopen])) in
+  let m' := snd (spec_run keq dflt s_empty ops) in
+  c_lfu c' = [] /\ c_evq c' = [] /\ c_wbq c' = [] /\
+  forall k, match m' k with
+            | Some v => exists d, c_disk c' k = Some d /\ dec k d = v
+            | None => c_disk c' k = None
+            end.
+Proof. exact (@c05_flush_durable). Qed.
+Print Assumptions C05_flush_durable.
+
+Theorem C05_delete_removes :
+  forall (K V D : Type) (keq : forall a b : K, {a = b} + {a <> b})
+         (dflt : K -> V) (enc : K -> V -> D) (dec : K -> D -> V) (c : cache (K:=K) (V:=V) (D:=D)) k,
+  let c' := fst (step keq dflt enc dec c (ODelete k)) in
+  l_find keq k (c_lfu c') = None /\ c_disk c' k = None.
+Proof. exact (@c05_delete_removes). Qed.
 Print Assumptions C05_delete_removes.
+
+Theorem C05_writeback_partial :
+  forall (K V D : Type) (keq : forall a b : K, {a = b} + {a <> b})
+         (dflt : K -> V) (enc : K -> V -> D) (dec : K -> D -> V),
+  (forall k v, dec k (enc k v) = v) ->
+  forall ops,
+  admissible keq dflt enc dec c_empty ops ->
+  rets (fst (run keq dflt enc dec c_empty ops)) = rets (fst (spec_run keq dflt s_empty ops)).
+Proof. exact (@c05_writeback_partial). Qed.
+Print Assumptions C05_writeback_partial.
+
+(* D10: all hypotheses of C05_refines except no_writeback hold, the oracle is possible, and a read differs *)
+Theorem C05_writeback_refuted :
+  exists ops, admissible0 N.eq_dec w_dflt w_id w_id c_empty ops /\
+              ~ In Bad (fst (run N.eq_dec w_dflt w_id w_id c_empty ops)) /\
+              rets (fst (run N.eq_dec w_dflt w_id w_id c_empty ops)) <> rets (fst (spec_run N.eq_dec w_dflt s_empty ops)).
+Proof. exact c05_writeback_refuted. Qed.
+Print Assumptions C05_writeback_refuted.
+
+(* D11: no write-back, but a Get overlaps the in-flight save of its key *)
+Theorem C05_inflight_refuted :
+  exists ops, no_writeback ops /\
+              ~ In Bad (fst (run N.eq_dec w_dflt w_id w_id c_empty ops)) /\
+              rets (fst (run N.eq_dec w_dflt w_id w_id c_empty ops)) <> rets (fst (spec_run N.eq_dec w_dflt s_empty ops)) /\
+              c_disk (snd (run N.eq_dec w_dflt w_id w_id c_empty ops)) 0%N = Some (w_dflt 0%N).
+Proof. exact c05_inflight_refuted. Qed.
+Print Assumptions C05_inflight_refuted.
+
+(* same root cause, other symptom: a Delete overlapping the in-flight save is undone when the save lands *)
+Theorem C05_inflight_delete_refuted :
+  exists ops, no_writeback ops /\
+              ~ In Bad (fst (run N.eq_dec w_dflt w_id w_id c_empty ops)) /\
+              rets (fst (run N.eq_dec w_dflt w_id w_id c_empty ops)) <> rets (fst (spec_run N.eq_dec w_dflt s_empty ops)).
+Proof. exact c05_inflight_delete_refuted. Qed.
+Print Assumptions C05_inflight_delete_refuted.
+
+(* a pointer kept across an eviction: the mutation is lost although every save had completed *)
+Theorem C05_stale_handle_refuted :
+  exists ops, no_writeback ops /\
+              ~ In Bad (fst (run N.eq_dec w_dflt w_id w_id c_empty ops)) /\
+              rets (fst (run N.eq_dec w_dflt w_id w_id c_empty ops)) <> rets (fst (spec_run N.eq_dec w_dflt s_empty ops)).
+Proof. exact c05_stale_handle_refuted. Qed.
+Print Assumptions C05_stale_handle_refuted.
+
+Example C05_refines_nonvacuous :
+  forallb (is_sync (K:=N) (V:=N)) w_good = true /\
+  no_writeback (lower w_good) /\ admissible0 N.eq_dec w_dflt w_id w_id c_empty (lower w_good) /\
+  ~ In Bad (fst (run N.eq_dec w_dflt w_id w_id c_empty (lower w_good))) /\
+  rets (fst (run N.eq_dec w_dflt w_id w_id c_empty (lower w_good))) = [5; 6; 8; 8; 1001]%N.
+Proof. exact c05_refines_nonvacuous. Qed.
+
+Example C05_writeback_partial_nonvacuous :
+  admissible N.eq_dec w_dflt w_id w_id c_empty w_wb_ok /\
+  ~ In Bad (fst (run N.eq_dec w_dflt w_id w_id c_empty w_wb_ok)) /\
+  rets (fst (run N.eq_dec w_dflt w_id w_id c_empty w_wb_ok)) = [11; 12]%N.
+Proof. exact c05_writeback_partial_nonvacuous. Qed.
